@@ -546,8 +546,10 @@ fn gen_plist_line(r: &mut Rng) -> Vec<u8> {
     let files: [&[u8]; 14] = [b"bin/foo", b"a", b"b", b"man/man1/x.1", b"\xa0", b"\x85x", b"caf\xe9", b"x y", b"\xc3\xa0", b"+BUILD_INFO", b"lib/\xf8", b"\x0b", b"z\xa0", b"1"];
     let cmds: [&[u8]; 22] = [b"@cwd", b"@src", b"@cd", b"@exec", b"@unexec", b"@option", b"@mode", b"@owner", b"@group", b"@comment", b"@ignore",
         b"@name", b"@pkgdep", b"@blddep", b"@pkgcfl", b"@pkgdir", b"@dirrm", b"@display", b"@bogus", b"@", b"@ignore", b"@cwd"];
-    let args: [&[u8]; 16] = [b"", b" /opt/pkg", b" /opt/pkg/", b" preserve", b" 0644", b"  two  words", b" \xa0dir", b" caf\xe9/", b" \xf0\x9f\x92\x96", b" ",
-        b" \t x", b" root", b" pkg-1.0", b" \x85", b" dep>=1", b" /"];
+    let args: [&[u8]; 24] = [b"", b" /opt/pkg", b" /opt/pkg/", b" preserve", b" 0644", b"  two  words", b" \xa0dir", b" caf\xe9/", b" \xf0\x9f\x92\x96", b" ",
+        b" \t x", b" root", b" pkg-1.0", b" \x85", b" dep>=1", b" /",
+        // arguments that END in blanks: kept exactly (only the blanks between command and argument are skipped)
+        b" /opt/My Dir ", b" pkg-1.0 ", b" preserve ", b" x\t", b" x\r", b" root  ", b" a b \t", b" \x0c"];
     let blanks: [&[u8]; 7] = [b"", b" ", b"\t", b"  \t ", b"\r", b" \x0c", b"\x0b"];
     match r.below(10) {
         0 | 1 => r.pick(&blanks).to_vec(),
